@@ -34,10 +34,11 @@ const (
 	PolRoundRobin               // next id after the one that ran last
 	PolPCT                      // random priorities with PCTDepth change points
 	PolStarve                   // random, but one drawn victim runs only when nothing else can
+	PolStall                    // random, and a goroutine that just left a critical section (Unlock, channel operation) is sometimes held back until nobody else can run
 	NumPolicies
 )
 
-var policyNames = [...]string{"random", "lowest", "highest", "roundrobin", "pct", "starve"}
+var policyNames = [...]string{"random", "lowest", "highest", "roundrobin", "pct", "starve", "stall"}
 
 func (p Policy) String() string {
 	if int(p) < len(policyNames) {
@@ -52,6 +53,7 @@ type Config struct {
 	SwitchPermille int // chance of a context switch at a soft gate (Add, Done, Unlock, Go, Yield)
 	PCTDepth       int
 	PCTHorizon     int
+	StallAfterUnlockPermille int // PolStall: chance that a goroutine leaving a critical section is held back
 	MaxSteps       int
 	KeyOrder       KeyPolicy
 	KeepTrace      bool
@@ -193,6 +195,7 @@ type gor struct {
 	prio  int
 	begun bool
 	seq   int // unbuffered send: index of this goroutine's deposit
+	stalled bool    // PolStall: held back until nobody else can run
 	daemon bool     // background helper (ticker): does not keep the run alive
 	ranAt int       // step at which it was last given the processor
 	deflt bool      // woken from a select whose default branch was taken
@@ -856,6 +859,13 @@ func (s *Sim) loop() {
 		if !forceSwitch {
 			s.spins = 0
 		}
+		if s.cfg.Policy == PolStall && g != nil && (r.kind == kUnlock || r.kind == kRUnlock || r.kind == kSendWait || r.kind == kClose || r.kind == kCondSignal) {
+			// split critical sections (check, then act on a stale answer) show when the goroutine is held back right here
+			if s.ch.Draw("stall-after-unlock", 1000) < s.cfg.StallAfterUnlockPermille {
+				g.stalled = true
+				s.probes["held-back-after-critical-section"]++
+			}
+		}
 		s.recvCache = nil
 		next := s.pick(g, soft)
 		if forceSwitch && next == g {
@@ -985,6 +995,21 @@ func (s *Sim) pick(g *gor, soft bool) *gor {
 			}
 		}
 		if len(el) > 0 {
+			if s.cfg.Policy == PolStall {
+				var free []*gor
+				for _, x := range el {
+					if !x.stalled {
+						free = append(free, x)
+					}
+				}
+				if len(free) == 0 {
+					for _, x := range el {
+						x.stalled = false
+					}
+				} else {
+					el = free
+				}
+			}
 			break
 		}
 		// nothing can run: discrete-event time jumps to the next timer
@@ -1011,7 +1036,7 @@ func (s *Sim) pick(g *gor, soft bool) *gor {
 		}
 		return best
 	}
-	if g != nil && soft && s.eligible(g) && len(el) > 1 {
+	if g != nil && soft && s.eligible(g) && len(el) > 1 && !g.stalled {
 		if s.ch.Draw("switch", 1000) >= s.cfg.SwitchPermille {
 			return g
 		}
